@@ -1,6 +1,10 @@
 (* Proofs for Model/Cas.v (property C03): every rewrite of automatic_simplify and of the optional modifications is an instance of
-   an explicit list of algebraic laws - the value of the expression is preserved in EVERY algebra satisfying them. *)
-From Coq Require Import ZArith List Bool Lia.
+   an explicit list of algebraic laws.  Values live in an algebra with a REFINEMENT preorder [new <== old] ("wherever old is
+   defined, new is defined and equal"): most laws are equations, five are refinements (0 <== a*0, 1 <== 1^e, 1 <== b^0 and the
+   power identities), and the three power identities are only required for integer exponents when the model runs with
+   iexp = true.  Instances: equality (every law unconditional - the degenerate reading), and option R with strict operations
+   (Proofs/CasReal.v - the pointwise reading over the reals). *)
+From Coq Require Import ZArith List Bool Lia Morphisms RelationClasses Setoid.
 From Bingo Require Import Lib.Alg Gen.OpDefs Gen.OpEval Model.Stack Model.Cas.
 Import ListNotations.
 Local Open Scope Z_scope.
@@ -31,10 +35,15 @@ Proof. destruct a, b; cbn; intros H; try discriminate; [f_equal; apply ceqb_eq; 
 
 Section Sem.
 Context {V : Type} (A : alg V).
+Variable ref : V -> V -> Prop.       (* ref new old *)
+Variable iexp : bool.
 Variable xv cv : Z -> V.
 Notation "0" := (a_of_int A 0). Notation "1" := (a_of_int A 1).
 Notation "x + y" := (a_add A x y). Notation "x * y" := (a_mul A x y).
 Notation pw := (a_pow A).
+Infix "<==" := ref (at level 70, no associativity).
+(* the value is (the image of) an integer *)
+Definition is_iv (e : V) : Prop := exists k, e = a_of_int A k.
 
 Definition nsum (l : list V) : V := fold_right (a_add A) 0 l.
 Definition nprod (l : list V) : V := fold_right (a_mul A) 1 l.
@@ -50,26 +59,32 @@ Fixpoint ev (e : cexpr) : V :=
 Definition evs (l : list cexpr) : list V := map ev l.
 
 (* ---------- the laws ---------- *)
+Hypothesis ref_refl : forall a, a <== a.
+Hypothesis ref_trans : forall a b c, a <== b -> b <== c -> a <== c.
+Hypothesis op1_mono : forall o a a', a' <== a -> sem_op1 A o a' <== sem_op1 A o a.
+Hypothesis op2_mono : forall o a a' b b', a' <== a -> b' <== b -> sem_op2 A o a' b' <== sem_op2 A o a b.
 Hypothesis add_comm : forall a b, a + b = b + a.
 Hypothesis add_assoc : forall a b c, a + (b + c) = (a + b) + c.
 Hypothesis add_0_r : forall a, a + 0 = a.
 Hypothesis mul_comm : forall a b, a * b = b * a.
 Hypothesis mul_assoc : forall a b c, a * (b * c) = (a * b) * c.
 Hypothesis mul_1_r : forall a, a * 1 = a.
-Hypothesis mul_0_r : forall a, a * 0 = 0.
+Hypothesis mul_0_r : forall a, 0 <== a * 0.
 Hypothesis distr : forall a b t, a * t + b * t = (a + b) * t.
 Hypothesis int_add : forall a b, a_of_int A (a + b)%Z = a_of_int A a + a_of_int A b.
 Hypothesis int_mul : forall a b, a_of_int A (a * b)%Z = a_of_int A a * a_of_int A b.
 Hypothesis sub_def : forall a b, a_sub A a b = a + a_of_int A (-1) * b.
 Hypothesis div_def : forall a b, a_div A a b = a * pw b (a_of_int A (-1)).
-Hypothesis pow_1_l : forall e, pw 1 e = 1.
+Hypothesis pow_1_l : forall e, 1 <== pw 1 e.
 Hypothesis pow_0_l : forall k, (0 < k)%Z -> pw 0 (a_of_int A k) = 0.
 Hypothesis pow_1_r : forall b, pw b 1 = b.
-Hypothesis pow_0_r : forall b, pw b 0 = 1.
+Hypothesis pow_0_r : forall b, 1 <== pw b 0.
 Hypothesis pow_int : forall a k, (0 < k)%Z -> pw (a_of_int A a) (a_of_int A k) = a_of_int A (a ^ k)%Z.
-Hypothesis pow_pow : forall b e1 e2, pw (pw b e1) e2 = pw b (e1 * e2).
-Hypothesis pow_mul : forall a b e, pw (a * b) e = pw a e * pw b e.
-Hypothesis pow_add : forall b e1 e2, pw b e1 * pw b e2 = pw b (e1 + e2).
+Hypothesis pow_pow : forall b e1 e2, (iexp = true -> is_iv e1 /\ is_iv e2) -> pw b (e1 * e2) <== pw (pw b e1) e2.
+Hypothesis pow_mul : forall a b e, (iexp = true -> is_iv e) -> pw a e * pw b e <== pw (a * b) e.
+Hypothesis pow_add : forall b e1 e2, (iexp = true -> is_iv e1 /\ is_iv e2) -> pw b (e1 + e2) <== pw b e1 * pw b e2.
+Hypothesis pow_add_nn : forall b k1 k2, (0 <= k1)%Z -> (0 <= k2)%Z ->
+  pw b (a_of_int A k1) * pw b (a_of_int A k2) = pw b (a_of_int A (k1 + k2)%Z).
 Hypothesis sin_0 : a_sin A 0 = 0.
 Hypothesis sinh_0 : a_sinh A 0 = 0.
 Hypothesis cos_0 : a_cos A 0 = 1.
@@ -78,10 +93,27 @@ Hypothesis exp_0 : a_exp A 0 = 1.
 Hypothesis log_1 : a_log A (a_abs A 1) = 0.
 Hypothesis log_exp : forall x, a_log A (a_abs A (a_exp A x)) = x.
 
+(* ---------- the preorder and the monotone operations, for rewriting ---------- *)
+Local Instance ref_PreOrder : PreOrder ref := {| PreOrder_Reflexive := ref_refl; PreOrder_Transitive := ref_trans |}.
+Lemma add_mono a a' b b' : a' <== a -> b' <== b -> a' + b' <== a + b.
+Proof. intros H1 H2. exact (op2_mono ADDITION _ _ _ _ H1 H2). Qed.
+Lemma mul_mono a a' b b' : a' <== a -> b' <== b -> a' * b' <== a * b.
+Proof. intros H1 H2. exact (op2_mono MULTIPLICATION _ _ _ _ H1 H2). Qed.
+Lemma pow_mono a a' b b' : a' <== a -> b' <== b -> pw a' b' <== pw a b.
+Proof. intros H1 H2. exact (op2_mono POWER _ _ _ _ H1 H2). Qed.
+Local Instance add_Proper : Proper (ref ==> ref ==> ref) (a_add A).
+Proof. intros a' a H1 b' b H2. apply add_mono; assumption. Qed.
+Local Instance mul_Proper : Proper (ref ==> ref ==> ref) (a_mul A).
+Proof. intros a' a H1 b' b H2. apply mul_mono; assumption. Qed.
+Local Instance pow_Proper : Proper (ref ==> ref ==> ref) (a_pow A).
+Proof. intros a' a H1 b' b H2. apply pow_mono; assumption. Qed.
+Lemma ref_of_eq a b : a = b -> a <== b. Proof. intros ->. reflexivity. Qed.
+
 (* ---------- derived facts ---------- *)
 Lemma add_0_l a : 0 + a = a. Proof. rewrite add_comm. apply add_0_r. Qed.
 Lemma mul_1_l a : 1 * a = a. Proof. rewrite mul_comm. apply mul_1_r. Qed.
-Lemma mul_0_l a : 0 * a = 0. Proof. rewrite mul_comm. apply mul_0_r. Qed.
+Lemma mul_0_l a : 0 <== 0 * a. Proof. rewrite mul_comm. apply mul_0_r. Qed.
+Lemma int_mul_0 k : a_of_int A k * 0 = 0. Proof. rewrite <- int_mul, Z.mul_0_r. reflexivity. Qed.
 Lemma nprod_app l m : nprod (l ++ m) = nprod l * nprod m.
 Proof. induction l as [|x l IH]; cbn [app nprod fold_right]; [symmetry; apply mul_1_l|]. fold (nprod (l ++ m)). rewrite IH. apply mul_assoc. Qed.
 Lemma nsum_app l m : nsum (l ++ m) = nsum l + nsum m.
@@ -92,8 +124,15 @@ Lemma nprod_one x : nprod [x] = x. Proof. cbn. apply mul_1_r. Qed.
 Lemma nsum_one x : nsum [x] = x. Proof. cbn. apply add_0_r. Qed.
 Lemma nprod_two x y : nprod [x; y] = x * y. Proof. cbn. rewrite mul_1_r. reflexivity. Qed.
 Lemma nsum_two x y : nsum [x; y] = x + y. Proof. cbn. rewrite add_0_r. reflexivity. Qed.
-Lemma nprod_zero l : In 0 l -> nprod l = 0.
-Proof. induction l as [|x l IH]; intros H; [destruct H|]. cbn. destruct H as [->|H]; [apply mul_0_l|]. fold (nprod l). rewrite (IH H). apply mul_0_r. Qed.
+Lemma nprod_zero l : In 0 l -> 0 <== nprod l.
+Proof.
+  induction l as [|x l IH]; intros H; [destruct H|]. cbn. fold (nprod l). destruct H as [->|H]; [apply mul_0_l|].
+  rewrite <- (IH H). apply mul_0_r.
+Qed.
+Lemma nprod_mono l' l : Forall2 ref l' l -> nprod l' <== nprod l.
+Proof. induction 1 as [|x y l' l Hxy _ IH]; [reflexivity|]. cbn. fold (nprod l') (nprod l). apply mul_mono; assumption. Qed.
+Lemma nsum_mono l' l : Forall2 ref l' l -> nsum l' <== nsum l.
+Proof. induction 1 as [|x y l' l Hxy _ IH]; [reflexivity|]. cbn. fold (nsum l') (nsum l). apply add_mono; assumption. Qed.
 
 Lemma ev_int k : ev (mk_int k) = a_of_int A k. Proof. reflexivity. Qed.
 Lemma is_zero_ev e : is_zero e = true -> ev e = 0.
@@ -152,8 +191,11 @@ Proof.
   destruct (g x) as [y|] eqn:E; [|discriminate]. cbn [o_bind] in H. destruct (mapM g l) as [ys|]; [|discriminate]. cbn in H. injection H as <-.
   constructor; [exact E|apply IH; reflexivity].
 Qed.
-Lemma nprod_pow_map vs e : nprod (map (fun x => pw x e) vs) = pw (nprod vs) e.
-Proof. induction vs as [|x vs IH]; cbn; [symmetry; apply pow_1_l|]. fold (nprod (map (fun x => pw x e) vs)). fold (nprod vs). rewrite IH. symmetry. apply pow_mul. Qed.
+Lemma nprod_pow_map vs e : (iexp = true -> is_iv e) -> nprod (map (fun x => pw x e) vs) <== pw (nprod vs) e.
+Proof.
+  intros G. induction vs as [|x vs IH]; cbn; [apply pow_1_l|]. fold (nprod (map (fun x => pw x e) vs)). fold (nprod vs).
+  rewrite IH. apply pow_mul. exact G.
+Qed.
 
 Lemma nprod_evs1 e : nprod (evs [e]) = ev e. Proof. apply nprod_one. Qed.
 Lemma nsum_evs1 e : nsum (evs [e]) = ev e. Proof. apply nsum_one. Qed.
@@ -173,9 +215,10 @@ Proof. rewrite add_assoc, (add_comm a b), <- add_assoc. reflexivity. Qed.
 (* ---------- the specifications of the mutually recursive core ---------- *)
 Section Core.
 Variable chk : bool.
-Notation s_pow := (simplify_power chk). Notation s_cpow := (simplify_constant_power chk). Notation s_prod := (simplify_product chk).
-Notation s_prec := (simplify_product_rec chk). Notation s_pmerge := (merge_products chk). Notation s_sum := (simplify_sum chk).
-Notation s_srec := (simplify_sum_rec chk). Notation s_smerge := (merge_sums chk).
+Variable fits : Z -> bool.
+Notation s_pow := (simplify_power chk iexp fits). Notation s_cpow := (simplify_constant_power chk iexp fits). Notation s_prod := (simplify_product chk iexp fits).
+Notation s_prec := (simplify_product_rec chk iexp fits). Notation s_pmerge := (merge_products chk iexp fits). Notation s_sum := (simplify_sum chk iexp fits).
+Notation s_srec := (simplify_sum_rec chk iexp fits). Notation s_smerge := (merge_sums chk iexp fits).
 
 
 (* unfolding equations of the mutually recursive functions *)
@@ -192,15 +235,18 @@ Proof. reflexivity. Qed.
 Lemma s_cpow_eq f b ex : s_cpow (S f) b ex =
     if is_one ex then Some b
     else if is_zero ex then Some ONE
-    else if is_int b && is_int ex && (0 <? leaf_val ex) then Some (mk_int (leaf_val b ^ leaf_val ex))
+    else if is_int b && is_int ex && (0 <? leaf_val ex) then
+      match integer_power fits (leaf_val b) (leaf_val ex) with Some p => Some (mk_int p) | None => Some (Node POWER [b; ex]) end
     else if is_pow b then
       match args_of b with
       | [bb; be] =>
+        if iexp && negb (is_int be && is_int ex) then None else
         o_bind (s_prod f (Node MULTIPLICATION [be; ex])) (fun ne =>
           if is_int be || is_cst be then s_cpow f bb ne else Some (Node POWER [bb; ne]))
       | _ => None
       end
     else if is_mul b then
+      if iexp && negb (is_int ex) then None else
       o_bind (mapM (fun x => s_cpow f x ex) (args_of b)) (fun l => s_prod f (Node MULTIPLICATION l))
     else Some (Node POWER [b; ex]).
 Proof. reflexivity. Qed.
@@ -218,13 +264,15 @@ Lemma s_prec_eq f ops : s_prec (S f) ops =
     match ops with
     | [op1; op2] =>
       if is_int op1 && is_int op2 then
-        (let p := mk_int (leaf_val op1 * leaf_val op2) in if is_one p then Some [] else Some [p])
+        (if negb (fits (leaf_val op1 * leaf_val op2)) then (if expr_lt op2 op1 then Some [op2; op1] else Some ops) else
+         let p := mk_int (leaf_val op1 * leaf_val op2) in if is_one p then Some [] else Some [p])
       else if negb (is_mul op1 || is_mul op2) then
         if is_one op1 then Some [op2]
         else if is_one op2 then Some [op1]
         else if oeqb (base_of op1) (base_of op2) then
           match base_of op1, exponent_of op1, exponent_of op2 with
           | Some b1, Some e1, Some e2 =>
+            if iexp && negb (is_int e1 && is_int e2) then None else
             o_bind (s_sum f (Node ADDITION [e1; e2])) (fun ne =>
             o_bind (s_pow f (Node POWER [b1; ne])) (fun c =>
               if is_one c then Some [] else Some [c]))
@@ -269,7 +317,8 @@ Lemma s_srec_eq f ops : s_srec (S f) ops =
     match ops with
     | [op1; op2] =>
       if is_int op1 && is_int op2 then
-        (let p := mk_int (leaf_val op1 + leaf_val op2) in if is_zero p then Some [] else Some [p])
+        (if negb (fits (leaf_val op1 + leaf_val op2)) then (if expr_lt op2 op1 then Some [op2; op1] else Some ops) else
+         let p := mk_int (leaf_val op1 + leaf_val op2) in if is_zero p then Some [] else Some [p])
       else if negb (is_add op1 || is_add op2) then
         if is_zero op1 then Some [op2]
         else if is_zero op2 then Some [op1]
@@ -348,142 +397,174 @@ Proof.
   destruct (ceqb z x); [reflexivity|]. destruct (ceqb z y); cbn [negb]; [rewrite andb_false_r; reflexivity|]. rewrite Ck. reflexivity.
 Qed.
 
-Definition P_pow f := forall b ex r, s_pow f (Node POWER [b; ex]) = Some r -> ev r = pw (ev b) (ev ex).
-Definition P_cpow f := forall b ex r, s_cpow f b ex = Some r -> ev r = pw (ev b) (ev ex).
-Definition P_prod f := forall e r, s_prod f e = Some r -> ev r = nprod (evs (args_of e)).
-Definition P_prec f := forall ops l, s_prec f ops = Some l -> nprod (evs l) = nprod (evs ops).
+Definition P_pow f := forall b ex r, s_pow f (Node POWER [b; ex]) = Some r -> ev r <== pw (ev b) (ev ex).
+Definition P_cpow f := forall b ex r, s_cpow f b ex = Some r -> ev r <== pw (ev b) (ev ex).
+Definition P_prod f := forall e r, s_prod f e = Some r -> ev r <== nprod (evs (args_of e)).
+Definition P_prec f := forall ops l, s_prec f ops = Some l -> nprod (evs l) <== nprod (evs ops).
 (* the pair case also says what shape the answer has (needed by the merges) *)
-Definition P_pmerge f := forall o1 o2 l, s_pmerge f o1 o2 = Some l -> nprod (evs l) = nprod (evs o1) * nprod (evs o2).
-Definition P_sum f := forall e r, s_sum f e = Some r -> ev r = nsum (evs (args_of e)).
-Definition P_srec f := forall ops l, s_srec f ops = Some l -> nsum (evs l) = nsum (evs ops).
-Definition P_smerge f := forall o1 o2 l, s_smerge f o1 o2 = Some l -> nsum (evs l) = nsum (evs o1) + nsum (evs o2).
+Definition P_pmerge f := forall o1 o2 l, s_pmerge f o1 o2 = Some l -> nprod (evs l) <== nprod (evs o1) * nprod (evs o2).
+Definition P_sum f := forall e r, s_sum f e = Some r -> ev r <== nsum (evs (args_of e)).
+Definition P_srec f := forall ops l, s_srec f ops = Some l -> nsum (evs l) <== nsum (evs ops).
+Definition P_smerge f := forall o1 o2 l, s_smerge f o1 o2 = Some l -> nsum (evs l) <== nsum (evs o1) + nsum (evs o2).
 Definition P_all f := P_pow f /\ P_cpow f /\ P_prod f /\ P_prec f /\ P_pmerge f /\ P_sum f /\ P_srec f /\ P_smerge f.
 
+Lemma integer_power_val b e p : (0 < e)%Z -> integer_power fits b e = Some p -> p = (b ^ e)%Z.
+Proof.
+  intros He. unfold integer_power. destruct ((1 <? Z.abs b) && (63 <? e)); [discriminate|]. cbn zeta.
+  match goal with |- (if fits ?q then _ else _) = _ -> _ => assert (E : q = (b ^ e)%Z); [|rewrite E; destruct (fits (b ^ e)); [intros H; injection H as <-; reflexivity|discriminate]] end.
+  destruct (Z.eqb_spec b 0) as [->|N0]; [symmetry; apply Z.pow_0_l; exact He|].
+  destruct (Z.eqb_spec b 1) as [->|N1]; [symmetry; apply Z.pow_1_l; lia|].
+  destruct (Z.eqb_spec b (-1)) as [->|N2]; [|reflexivity].
+  destruct (Z.even e) eqn:Ev.
+  - apply Z.even_spec in Ev. change (-1)%Z with (- (1))%Z. rewrite (Z.pow_opp_even 1 e Ev), Z.pow_1_l by lia. reflexivity.
+  - assert (Od : Z.Odd e) by (apply Z.odd_spec; rewrite <- Z.negb_even, Ev; reflexivity).
+    change (-1)%Z with (- (1))%Z. rewrite (Z.pow_opp_odd 1 e Od), Z.pow_1_l by lia. reflexivity.
+Qed.
 Lemma step_pow f : P_cpow f -> P_pow (S f).
 Proof.
   intros IH b ex r H. rewrite s_pow_eq in H. cbn [args_of] in H.
-  destruct (is_one b) eqn:E1; [injection H as <-; rewrite (is_one_ev _ E1); symmetry; apply pow_1_l|].
+  destruct (is_one b) eqn:E1; [injection H as <-; rewrite (is_one_ev _ E1); apply pow_1_l|].
   destruct (is_zero b && is_int ex && (0 <? leaf_val ex)) eqn:E2.
   { injection H as <-. apply andb_prop in E2 as [E2 E4]. apply andb_prop in E2 as [E2 E3]. apply Z.ltb_lt in E4.
-    rewrite (is_zero_ev _ E2), (is_int_ev _ E3). symmetry. apply pow_0_l. exact E4. }
-  destruct (is_int ex || is_cst ex); [apply IH; exact H|]. injection H as <-. apply ev_pow.
+    rewrite (is_zero_ev _ E2), (is_int_ev _ E3). apply ref_of_eq. symmetry. apply pow_0_l. exact E4. }
+  destruct (is_int ex || is_cst ex); [apply IH; exact H|]. injection H as <-. apply ref_of_eq. apply ev_pow.
 Qed.
 Lemma step_cpow f : P_cpow f -> P_prod f -> P_cpow (S f).
 Proof.
   intros IHc IHp b ex r H. rewrite s_cpow_eq in H.
-  destruct (is_one ex) eqn:E1; [injection H as <-; rewrite (is_one_ev _ E1); symmetry; apply pow_1_r|].
-  destruct (is_zero ex) eqn:E2; [injection H as <-; rewrite (is_zero_ev _ E2); symmetry; apply pow_0_r|].
+  destruct (is_one ex) eqn:E1; [injection H as <-; rewrite (is_one_ev _ E1); apply ref_of_eq; symmetry; apply pow_1_r|].
+  destruct (is_zero ex) eqn:E2; [injection H as <-; rewrite (is_zero_ev _ E2); apply pow_0_r|].
   destruct (is_int b && is_int ex && (0 <? leaf_val ex)) eqn:E3.
-  { injection H as <-. apply andb_prop in E3 as [E3 E5]. apply andb_prop in E3 as [E3 E4]. apply Z.ltb_lt in E5.
-    rewrite (is_int_ev _ E3), (is_int_ev _ E4). symmetry. apply pow_int. exact E5. }
+  { destruct (integer_power fits (leaf_val b) (leaf_val ex)) as [p|] eqn:Ip; injection H as <-; [|apply ref_of_eq; apply ev_pow].
+    apply andb_prop in E3 as [E3 E5]. apply andb_prop in E3 as [E3 E4]. apply Z.ltb_lt in E5.
+    apply (integer_power_val _ _ _ E5) in Ip. subst p.
+    rewrite (is_int_ev _ E3), (is_int_ev _ E4). apply ref_of_eq. symmetry. apply pow_int. exact E5. }
   destruct (is_pow b) eqn:E4.
   { destruct b as [o v|o l]; [discriminate E4|]. cbn [is_pow] in E4. apply Z.eqb_eq in E4. subst o. cbn [args_of] in H.
     destruct l as [|bb [|be [|? ?]]]; try discriminate H.
+    destruct (iexp && negb (is_int be && is_int ex)) eqn:G; [discriminate H|].
+    assert (Gv : iexp = true -> is_iv (ev be) /\ is_iv (ev ex)).
+    { intros Hi. rewrite Hi in G. cbn [andb] in G. apply negb_false_iff in G. apply andb_prop in G as [G1 G2].
+      split; eexists; apply is_int_ev; assumption. }
     destruct (s_prod f (Node MULTIPLICATION [be; ex])) as [ne|] eqn:Ep; [|discriminate H]. cbn [o_bind] in H.
     pose proof (IHp _ _ Ep) as Hne. cbn [args_of] in Hne. change (evs [be; ex]) with [ev be; ev ex] in Hne. rewrite nprod_two in Hne.
-    rewrite ev_pow, pow_pow, <- Hne.
-    destruct (is_int be || is_cst be); [apply IHc; exact H|]. injection H as <-. apply ev_pow. }
+    rewrite ev_pow, <- (pow_pow _ _ _ Gv), <- Hne.
+    destruct (is_int be || is_cst be); [apply IHc; exact H|]. injection H as <-. apply ref_of_eq. apply ev_pow. }
   destruct (is_mul b) eqn:E5.
   { destruct b as [o v|o l]; [discriminate E5|]. cbn [is_mul] in E5. apply Z.eqb_eq in E5. subst o. cbn [args_of] in H.
+    destruct (iexp && negb (is_int ex)) eqn:G; [discriminate H|].
+    assert (Gv : iexp = true -> is_iv (ev ex)).
+    { intros Hi. rewrite Hi in G. cbn [andb] in G. apply negb_false_iff in G. eexists; apply is_int_ev; assumption. }
     destruct (mapM (fun x => s_cpow f x ex) l) as [l'|] eqn:Em; [|discriminate H]. cbn [o_bind] in H.
-    rewrite (IHp _ _ H). cbn [args_of]. rewrite ev_mul, <- nprod_pow_map. f_equal.
-    apply mapM_spec in Em. unfold evs. clear H E3 E4. induction Em as [|x y l l' Hxy Em IH]; [reflexivity|]. cbn [map]. rewrite IH, (IHc _ _ _ Hxy). reflexivity. }
-  injection H as <-. apply ev_pow.
+    rewrite (IHp _ _ H). cbn [args_of]. rewrite ev_mul, <- (nprod_pow_map _ _ Gv). apply nprod_mono.
+    apply mapM_spec in Em. unfold evs. clear H E3 E4. induction Em as [|x y l l' Hxy Em IH]; [constructor|]. cbn [map].
+    constructor; [apply (IHc _ _ _ Hxy)|exact IH]. }
+  injection H as <-. apply ref_of_eq. apply ev_pow.
 Qed.
 Lemma step_prod f : P_prec f -> P_prod (S f).
 Proof.
   intros IH e r H. rewrite s_prod_eq in H. cbn zeta in H. destruct (existsb (ceqb ZERO) (args_of e)) eqn:Ez.
-  { injection H as <-. apply existsb_exists in Ez as (x & Hin & Hx). apply ceqb_eq in Hx. subst x. symmetry. apply nprod_zero.
+  { injection H as <-. apply existsb_exists in Ez as (x & Hin & Hx). apply ceqb_eq in Hx. subst x. apply nprod_zero.
     change (a_of_int A 0) with (ev ZERO). apply in_map. exact Hin. }
-  destruct (args_of e) as [|x [|y rest]] eqn:Ea; [discriminate| injection H as <-; symmetry; apply nprod_one|].
+  destruct (args_of e) as [|x [|y rest]] eqn:Ea; [discriminate| injection H as <-; apply ref_of_eq; symmetry; apply nprod_one|].
   destruct (s_prec f (x :: y :: rest)) as [r0|] eqn:Er; [|discriminate H]. cbn [o_bind] in H. rewrite <- (IH _ _ Er).
-  destruct r0 as [|a [|b r1]]; injection H as <-; [reflexivity|symmetry; apply nprod_one|reflexivity].
+  destruct r0 as [|a [|b r1]]; injection H as <-; apply ref_of_eq; [reflexivity|symmetry; apply nprod_one|reflexivity].
 Qed.
 Lemma step_sum f : P_srec f -> P_sum (S f).
 Proof.
   intros IH e r H. rewrite s_sum_eq in H.
-  destruct (args_of e) as [|x [|y rest]] eqn:Ea; [discriminate| injection H as <-; symmetry; apply nsum_one|].
+  destruct (args_of e) as [|x [|y rest]] eqn:Ea; [discriminate| injection H as <-; apply ref_of_eq; symmetry; apply nsum_one|].
   destruct (s_srec f (x :: y :: rest)) as [r0|] eqn:Er; [|discriminate H]. cbn [o_bind] in H. rewrite <- (IH _ _ Er).
-  destruct r0 as [|a [|b r1]]; injection H as <-; [reflexivity|symmetry; apply nsum_one|reflexivity].
+  destruct r0 as [|a [|b r1]]; injection H as <-; apply ref_of_eq; [reflexivity|symmetry; apply nsum_one|reflexivity].
 Qed.
 
 (* the pair case of _simplify_product_rec: value and shape *)
 Lemma pair_prod f x y l : P_pow f -> P_sum f -> P_pmerge f -> s_prec (S f) [x; y] = Some l ->
-  nprod (evs l) = ev x * ev y /\
+  nprod (evs l) <== ev x * ev y /\
   (is_mul x || is_mul y = false -> l = [] \/ (exists z, l = [z]) \/ l = [x; y] \/ l = [y; x]).
 Proof.
   intros IHpow IHsum IHm H. rewrite s_prec_eq in H. cbn zeta in H.
   destruct (is_int x && is_int y) eqn:E1.
   { apply andb_prop in E1 as [Ex Ey]. assert (Hv : a_of_int A (leaf_val x * leaf_val y) = ev x * ev y) by (rewrite int_mul, <- (is_int_ev _ Ex), <- (is_int_ev _ Ey); reflexivity).
+    destruct (negb (fits (leaf_val x * leaf_val y))).
+    { destruct (expr_lt y x); injection H as <-.
+      - split; [|intros _; right; right; right; reflexivity]. rewrite nprod_evs2. apply ref_of_eq. apply mul_comm.
+      - split; [|intros _; right; right; left; reflexivity]. apply ref_of_eq. apply nprod_evs2. }
     destruct (is_one (mk_int (leaf_val x * leaf_val y))) eqn:E2; injection H as <-.
-    - split; [|intros _; left; reflexivity]. rewrite <- Hv. cbn. symmetry. apply (is_one_ev _ E2).
-    - split; [|intros _; right; left; eexists; reflexivity]. rewrite <- Hv. apply nprod_evs1. }
+    - split; [|intros _; left; reflexivity]. rewrite <- Hv. cbn. apply ref_of_eq. symmetry. apply (is_one_ev _ E2).
+    - split; [|intros _; right; left; eexists; reflexivity]. rewrite <- Hv. apply ref_of_eq. apply nprod_evs1. }
   destruct (is_mul x || is_mul y) eqn:Em; cbn [negb] in H.
   { split; [|discriminate]. rewrite (IHm _ _ _ H), !factors_ev. reflexivity. }
-  destruct (is_one x) eqn:E3; [injection H as <-; split; [rewrite (is_one_ev _ E3), nprod_evs1; symmetry; apply mul_1_l|intros _; right; left; eexists; reflexivity]|].
-  destruct (is_one y) eqn:E4; [injection H as <-; split; [rewrite (is_one_ev _ E4), nprod_evs1; symmetry; apply mul_1_r|intros _; right; left; eexists; reflexivity]|].
+  destruct (is_one x) eqn:E3; [injection H as <-; split; [rewrite (is_one_ev _ E3), nprod_evs1; apply ref_of_eq; symmetry; apply mul_1_l|intros _; right; left; eexists; reflexivity]|].
+  destruct (is_one y) eqn:E4; [injection H as <-; split; [rewrite (is_one_ev _ E4), nprod_evs1; apply ref_of_eq; symmetry; apply mul_1_r|intros _; right; left; eexists; reflexivity]|].
   destruct (oeqb (base_of x) (base_of y)) eqn:E5.
   { apply oeqb_eq in E5. destruct (base_of x) as [b1|] eqn:Bx; [|destruct (exponent_of x), (exponent_of y); discriminate H].
     destruct (exponent_of x) as [e1|] eqn:Xx; [|discriminate H]. destruct (exponent_of y) as [e2|] eqn:Xy; [|discriminate H].
+    destruct (iexp && negb (is_int e1 && is_int e2)) eqn:G; [discriminate H|].
+    assert (Gv : iexp = true -> is_iv (ev e1) /\ is_iv (ev e2)).
+    { intros Hi. rewrite Hi in G. cbn [andb] in G. apply negb_false_iff in G. apply andb_prop in G as [G1 G2].
+      split; eexists; apply is_int_ev; assumption. }
     destruct (s_sum f (Node ADDITION [e1; e2])) as [ne|] eqn:Es; [|discriminate H]. cbn [o_bind] in H.
     destruct (s_pow f (Node POWER [b1; ne])) as [cc|] eqn:Ep; [|discriminate H]. cbn [o_bind] in H.
     pose proof (IHsum _ _ Es) as Hne. cbn [args_of] in Hne. change (evs [e1; e2]) with [ev e1; ev e2] in Hne. rewrite nsum_two in Hne.
     pose proof (IHpow _ _ _ Ep) as Hc. rewrite Hne in Hc.
-    assert (Hv : ev cc = ev x * ev y).
-    { rewrite Hc, (base_exponent x b1 e1 Bx Xx), (base_exponent y b1 e2 (eq_sym E5) Xy). symmetry. apply pow_add. }
+    assert (Hv : ev cc <== ev x * ev y).
+    { rewrite Hc, (base_exponent x b1 e1 Bx Xx), (base_exponent y b1 e2 (eq_sym E5) Xy). apply pow_add. exact Gv. }
     destruct (is_one cc) eqn:E6; injection H as <-.
-    - split; [|intros _; left; reflexivity]. rewrite <- Hv. cbn. symmetry. apply (is_one_ev _ E6).
-    - split; [|intros _; right; left; eexists; reflexivity]. rewrite <- Hv. apply nprod_evs1. }
+    - split; [|intros _; left; reflexivity]. rewrite <- Hv. cbn. apply ref_of_eq. symmetry. apply (is_one_ev _ E6).
+    - split; [|intros _; right; left; eexists; reflexivity]. rewrite <- Hv. apply ref_of_eq. apply nprod_evs1. }
   destruct (expr_lt y x); injection H as <-.
-  - split; [|intros _; right; right; right; reflexivity]. rewrite nprod_evs2. apply mul_comm.
-  - split; [|intros _; right; right; left; reflexivity]. apply nprod_evs2.
+  - split; [|intros _; right; right; right; reflexivity]. rewrite nprod_evs2. apply ref_of_eq. apply mul_comm.
+  - split; [|intros _; right; right; left; reflexivity]. apply ref_of_eq. apply nprod_evs2.
 Qed.
 Lemma step_prec f : P_pow f -> P_sum f -> P_pmerge f -> P_prec f -> P_prec (S f).
 Proof.
   intros IHpow IHsum IHm IHr ops l H. destruct ops as [|x [|y [|z rest]]].
   - rewrite s_prec_eq in H. discriminate H.
   - rewrite s_prec_eq in H. discriminate H.
-  - destruct (pair_prod f x y l IHpow IHsum IHm H) as [Hv _]. rewrite Hv. change (evs [x; y]) with [ev x; ev y]. symmetry. apply nprod_two.
+  - destruct (pair_prod f x y l IHpow IHsum IHm H) as [Hv _]. rewrite Hv. change (evs [x; y]) with [ev x; ev y]. apply ref_of_eq. symmetry. apply nprod_two.
   - rewrite s_prec_eq in H. destruct (s_prec f (y :: z :: rest)) as [rs|] eqn:Er; [|discriminate H]. cbn [o_bind] in H.
     rewrite (IHm _ _ _ H), factors_ev, (IHr _ _ Er). reflexivity.
 Qed.
 (* in the checked model a simplified pair with two or more members is the pair itself, in some order *)
 Lemma step_pmerge f : chk = true -> (forall x y l, s_prec f [x; y] = Some l ->
-    nprod (evs l) = ev x * ev y) -> P_pmerge f -> P_pmerge (S f).
+    nprod (evs l) <== ev x * ev y) -> P_pmerge f -> P_pmerge (S f).
 Proof.
   intros Ck IHpair IHm o1 o2 l H. rewrite (s_pmerge_eq_chk _ _ _ Ck) in H.
-  destruct o1 as [|x r1]; [injection H as <-; cbn; symmetry; apply mul_1_l|].
-  destruct o2 as [|y r2]; [injection H as <-; cbn [evs map nprod fold_right]; symmetry; apply mul_1_r|].
+  destruct o1 as [|x r1]; [injection H as <-; cbn; apply ref_of_eq; symmetry; apply mul_1_l|].
+  destruct o2 as [|y r2]; [injection H as <-; cbn [evs map nprod fold_right]; apply ref_of_eq; symmetry; apply mul_1_r|].
   destruct (s_prec f [x; y]) as [sf|] eqn:Es; [|discriminate H]. cbn [o_bind] in H. pose proof (IHpair _ _ _ Es) as Hv.
   change (evs (x :: r1)) with (ev x :: evs r1). change (evs (y :: r2)) with (ev y :: evs r2). rewrite !nprod_cons.
   destruct sf as [|z [|w sf']].
-  - rewrite (IHm _ _ _ H). cbn in Hv. rewrite mul4, <- Hv. symmetry. apply mul_1_l.
+  - rewrite (IHm _ _ _ H). cbn in Hv. rewrite mul4, <- Hv. apply ref_of_eq. symmetry. apply mul_1_l.
   - destruct (s_pmerge f r1 r2) as [m|] eqn:Em; [|discriminate H]. cbn [o_bind] in H. injection H as <-.
-    change (evs (z :: m)) with (ev z :: evs m). rewrite nprod_cons, (IHm _ _ _ Em), mul4. f_equal.
+    change (evs (z :: m)) with (ev z :: evs m). rewrite nprod_cons, (IHm _ _ _ Em), mul4. apply mul_mono; [|reflexivity].
     change (evs [z]) with [ev z] in Hv. rewrite nprod_one in Hv. exact Hv.
   - destruct (ceqb z x) eqn:Ezx.
     + apply ceqb_eq in Ezx. subst z. destruct (s_pmerge f r1 (y :: r2)) as [m|] eqn:Em; [|discriminate H]. cbn [o_bind] in H. injection H as <-.
       change (evs (x :: m)) with (ev x :: evs m). rewrite nprod_cons, (IHm _ _ _ Em).
-      change (evs (y :: r2)) with (ev y :: evs r2). rewrite nprod_cons. apply mul_assoc.
+      change (evs (y :: r2)) with (ev y :: evs r2). rewrite nprod_cons. apply ref_of_eq. apply mul_assoc.
     + destruct (ceqb z y) eqn:Ezy; cbn [negb] in H; [|discriminate H].
       apply ceqb_eq in Ezy. subst z. destruct (s_pmerge f (x :: r1) r2) as [m|] eqn:Em; [|discriminate H]. cbn [o_bind] in H. injection H as <-.
       change (evs (y :: m)) with (ev y :: evs m). rewrite nprod_cons, (IHm _ _ _ Em).
       change (evs (x :: r1)) with (ev x :: evs r1). rewrite nprod_cons.
-      apply mul_swap.
+      apply ref_of_eq. apply mul_swap.
 Qed.
 
-Lemma pair_sum f x y l : P_sum f -> P_prod f -> P_smerge f -> s_srec (S f) [x; y] = Some l -> nsum (evs l) = ev x + ev y.
+Lemma pair_sum f x y l : P_sum f -> P_prod f -> P_smerge f -> s_srec (S f) [x; y] = Some l -> nsum (evs l) <== ev x + ev y.
 Proof.
   intros IHsum IHprod IHm H. rewrite s_srec_eq in H. cbn zeta in H.
   destruct (is_int x && is_int y) eqn:E1.
   { apply andb_prop in E1 as [Ex Ey]. assert (Hv : a_of_int A (leaf_val x + leaf_val y) = ev x + ev y) by (rewrite int_add, <- (is_int_ev _ Ex), <- (is_int_ev _ Ey); reflexivity).
+    destruct (negb (fits (leaf_val x + leaf_val y))).
+    { destruct (expr_lt y x); injection H as <-; [rewrite nsum_evs2; apply ref_of_eq; apply add_comm|apply ref_of_eq; apply nsum_evs2]. }
     destruct (is_zero (mk_int (leaf_val x + leaf_val y))) eqn:E2; injection H as <-.
-    - rewrite <- Hv. cbn. symmetry. apply (is_zero_ev _ E2).
-    - rewrite <- Hv. apply nsum_evs1. }
+    - rewrite <- Hv. cbn. apply ref_of_eq. symmetry. apply (is_zero_ev _ E2).
+    - rewrite <- Hv. apply ref_of_eq. apply nsum_evs1. }
   destruct (is_add x || is_add y) eqn:Em; cbn [negb] in H.
   { rewrite (IHm _ _ _ H), !addends_ev. reflexivity. }
-  destruct (is_zero x) eqn:E3; [injection H as <-; rewrite (is_zero_ev _ E3), nsum_evs1; symmetry; apply add_0_l|].
-  destruct (is_zero y) eqn:E4; [injection H as <-; rewrite (is_zero_ev _ E4), nsum_evs1; symmetry; apply add_0_r|].
+  destruct (is_zero x) eqn:E3; [injection H as <-; rewrite (is_zero_ev _ E3), nsum_evs1; apply ref_of_eq; symmetry; apply add_0_l|].
+  destruct (is_zero y) eqn:E4; [injection H as <-; rewrite (is_zero_ev _ E4), nsum_evs1; apply ref_of_eq; symmetry; apply add_0_r|].
   destruct (oeqb (term_of x) (term_of y)) eqn:E5.
   { apply oeqb_eq in E5. destruct (term_of x) as [t1|] eqn:Tx; [|destruct (coefficient_of x), (coefficient_of y); discriminate H].
     destruct (coefficient_of x) as [c1|] eqn:Cx; [|discriminate H]. destruct (coefficient_of y) as [c2|] eqn:Cy; [|discriminate H].
@@ -491,43 +572,43 @@ Proof.
     destruct (s_prod f (Node MULTIPLICATION [nc; t1])) as [cc|] eqn:Ep; [|discriminate H]. cbn [o_bind] in H.
     pose proof (IHsum _ _ Es) as Hnc. cbn [args_of] in Hnc. rewrite nsum_evs2 in Hnc.
     pose proof (IHprod _ _ Ep) as Hc. cbn [args_of] in Hc. rewrite nprod_evs2, Hnc in Hc.
-    assert (Hv : ev cc = ev x + ev y).
-    { rewrite Hc, (coefficient_term x c1 t1 Cx Tx), (coefficient_term y c2 t1 Cy (eq_sym E5)). symmetry. apply distr. }
+    assert (Hv : ev cc <== ev x + ev y).
+    { rewrite Hc, (coefficient_term x c1 t1 Cx Tx), (coefficient_term y c2 t1 Cy (eq_sym E5)). apply ref_of_eq. symmetry. apply distr. }
     destruct (is_zero cc) eqn:E6; injection H as <-.
-    - rewrite <- Hv. cbn. symmetry. apply (is_zero_ev _ E6).
-    - rewrite <- Hv. apply nsum_evs1. }
+    - rewrite <- Hv. cbn. apply ref_of_eq. symmetry. apply (is_zero_ev _ E6).
+    - rewrite <- Hv. apply ref_of_eq. apply nsum_evs1. }
   destruct (expr_lt y x); injection H as <-.
-  - rewrite nsum_evs2. apply add_comm.
-  - apply nsum_evs2.
+  - rewrite nsum_evs2. apply ref_of_eq. apply add_comm.
+  - apply ref_of_eq. apply nsum_evs2.
 Qed.
 Lemma step_srec f : P_sum f -> P_prod f -> P_smerge f -> P_srec f -> P_srec (S f).
 Proof.
   intros IHsum IHprod IHm IHr ops l H. destruct ops as [|x [|y [|z rest]]].
   - rewrite s_srec_eq in H. discriminate H.
   - rewrite s_srec_eq in H. discriminate H.
-  - rewrite (pair_sum f x y l IHsum IHprod IHm H). symmetry. apply nsum_evs2.
+  - rewrite (pair_sum f x y l IHsum IHprod IHm H). apply ref_of_eq. symmetry. apply nsum_evs2.
   - rewrite s_srec_eq in H. destruct (s_srec f (y :: z :: rest)) as [rs|] eqn:Er; [|discriminate H]. cbn [o_bind] in H.
     rewrite (IHm _ _ _ H), addends_ev, (IHr _ _ Er). reflexivity.
 Qed.
-Lemma step_smerge f : chk = true -> (forall x y l, s_srec f [x; y] = Some l -> nsum (evs l) = ev x + ev y) -> P_smerge f -> P_smerge (S f).
+Lemma step_smerge f : chk = true -> (forall x y l, s_srec f [x; y] = Some l -> nsum (evs l) <== ev x + ev y) -> P_smerge f -> P_smerge (S f).
 Proof.
   intros Ck IHpair IHm o1 o2 l H. rewrite (s_smerge_eq_chk _ _ _ Ck) in H.
-  destruct o1 as [|x r1]; [injection H as <-; cbn; symmetry; apply add_0_l|].
-  destruct o2 as [|y r2]; [injection H as <-; cbn [evs map nsum fold_right]; symmetry; apply add_0_r|].
+  destruct o1 as [|x r1]; [injection H as <-; cbn; apply ref_of_eq; symmetry; apply add_0_l|].
+  destruct o2 as [|y r2]; [injection H as <-; cbn [evs map nsum fold_right]; apply ref_of_eq; symmetry; apply add_0_r|].
   destruct (s_srec f [x; y]) as [sf|] eqn:Es; [|discriminate H]. cbn [o_bind] in H. pose proof (IHpair _ _ _ Es) as Hv.
   change (evs (x :: r1)) with (ev x :: evs r1). change (evs (y :: r2)) with (ev y :: evs r2). rewrite !nsum_cons.
   destruct sf as [|z [|w sf']].
-  - rewrite (IHm _ _ _ H). cbn in Hv. rewrite add4, <- Hv. symmetry. apply add_0_l.
+  - rewrite (IHm _ _ _ H). cbn in Hv. rewrite add4, <- Hv. apply ref_of_eq. symmetry. apply add_0_l.
   - destruct (s_smerge f r1 r2) as [m|] eqn:Em; [|discriminate H]. cbn [o_bind] in H. injection H as <-.
-    change (evs (z :: m)) with (ev z :: evs m). rewrite nsum_cons, (IHm _ _ _ Em), add4. f_equal. rewrite nsum_evs1 in Hv. exact Hv.
+    change (evs (z :: m)) with (ev z :: evs m). rewrite nsum_cons, (IHm _ _ _ Em), add4. apply add_mono; [|reflexivity]. rewrite nsum_evs1 in Hv. exact Hv.
   - destruct (ceqb z x) eqn:Ezx.
     + apply ceqb_eq in Ezx. subst z. destruct (s_smerge f r1 (y :: r2)) as [m|] eqn:Em; [|discriminate H]. cbn [o_bind] in H. injection H as <-.
       change (evs (x :: m)) with (ev x :: evs m). rewrite nsum_cons, (IHm _ _ _ Em).
-      change (evs (y :: r2)) with (ev y :: evs r2). rewrite nsum_cons. apply add_assoc.
+      change (evs (y :: r2)) with (ev y :: evs r2). rewrite nsum_cons. apply ref_of_eq. apply add_assoc.
     + destruct (ceqb z y) eqn:Ezy; cbn [negb] in H; [|discriminate H].
       apply ceqb_eq in Ezy. subst z. destruct (s_smerge f (x :: r1) r2) as [m|] eqn:Em; [|discriminate H]. cbn [o_bind] in H. injection H as <-.
       change (evs (y :: m)) with (ev y :: evs m). rewrite nsum_cons, (IHm _ _ _ Em).
-      change (evs (x :: r1)) with (ev x :: evs r1). rewrite nsum_cons. apply add_swap.
+      change (evs (x :: r1)) with (ev x :: evs r1). rewrite nsum_cons. apply ref_of_eq. apply add_swap.
 Qed.
 
 (* all eight specifications, for every amount of fuel *)
@@ -536,18 +617,18 @@ Proof. repeat split; intros; discriminate. Qed.
 Theorem core_sound : chk = true -> forall f, P_all f.
 Proof.
   intros Ck. induction f as [|f (Ipow & Icpow & Iprod & Iprec & Ipm & Isum & Isrec & Ism)]; [apply P_all_0|].
-  assert (Hpp : forall x y l, s_prec f [x; y] = Some l -> nprod (evs l) = ev x * ev y).
-  { intros x y l H. rewrite (Iprec _ _ H). apply nprod_evs2. }
-  assert (Hsp : forall x y l, s_srec f [x; y] = Some l -> nsum (evs l) = ev x + ev y).
-  { intros x y l H. rewrite (Isrec _ _ H). apply nsum_evs2. }
+  assert (Hpp : forall x y l, s_prec f [x; y] = Some l -> nprod (evs l) <== ev x * ev y).
+  { intros x y l H. rewrite (Iprec _ _ H). apply ref_of_eq. apply nprod_evs2. }
+  assert (Hsp : forall x y l, s_srec f [x; y] = Some l -> nsum (evs l) <== ev x + ev y).
+  { intros x y l H. rewrite (Isrec _ _ H). apply ref_of_eq. apply nsum_evs2. }
   split; [apply step_pow; assumption|]. split; [apply step_cpow; assumption|]. split; [apply step_prod; assumption|].
   split; [apply step_prec; assumption|]. split; [apply step_pmerge; assumption|]. split; [apply step_sum; assumption|].
   split; [apply step_srec; assumption|apply step_smerge; assumption].
 Qed.
 
 (* ---------- quotient, difference, the unary rules, the node dispatcher ---------- *)
-Lemma quotient_sound f e r : chk = true -> simplify_quotient chk f e = Some r ->
-  ev r = ev (nth 0 (args_of e) ZERO) * pw (ev (nth 1 (args_of e) ZERO)) (a_of_int A (-1)).
+Lemma quotient_sound f e r : chk = true -> simplify_quotient chk iexp fits f e = Some r ->
+  ev r <== ev (nth 0 (args_of e) ZERO) * pw (ev (nth 1 (args_of e) ZERO)) (a_of_int A (-1)).
 Proof.
   intros Ck H. destruct (core_sound Ck f) as (Ipow & _ & Iprod & _). unfold simplify_quotient in H.
   destruct (args_of e) as [|n [|d [|? ?]]]; try discriminate H.
@@ -555,29 +636,37 @@ Proof.
   rewrite (Iprod _ _ H). cbn [args_of nth]. rewrite nprod_evs2, (Ipow _ _ _ Ep). reflexivity.
 Qed.
 Lemma neg_map_sound f l negs : chk = true -> mapM (fun x => s_prod f (Node MULTIPLICATION [NEG_ONE; x])) l = Some negs ->
-  nsum (evs negs) = a_of_int A (-1) * nsum (evs l).
+  nsum (evs negs) <== a_of_int A (-1) * nsum (evs l).
 Proof.
   intros Ck H. destruct (core_sound Ck f) as (_ & _ & Iprod & _). apply mapM_spec in H.
-  induction H as [|x y l negs Hxy H IH]; [cbn; symmetry; apply mul_0_r|].
+  induction H as [|x y l negs Hxy H IH]; [cbn; apply mul_0_r|].
   change (evs (y :: negs)) with (ev y :: evs negs). change (evs (x :: l)) with (ev x :: evs l). rewrite !nsum_cons, IH.
   rewrite (Iprod _ _ Hxy). cbn [args_of]. rewrite nprod_evs2. change (ev NEG_ONE) with (a_of_int A (-1)).
-  rewrite (mul_comm (a_of_int A (-1)) (ev x)), (mul_comm (a_of_int A (-1)) (nsum (evs l))), distr. apply mul_comm.
+  rewrite (mul_comm (a_of_int A (-1)) (ev x)), (mul_comm (a_of_int A (-1)) (nsum (evs l))), distr. apply ref_of_eq. apply mul_comm.
 Qed.
-Lemma difference_sound f e r : chk = true -> simplify_difference chk f e = Some r ->
-  ev r = ev (nth 0 (args_of e) ZERO) + a_of_int A (-1) * ev (nth 1 (args_of e) ZERO).
+Lemma difference_sound f e r : chk = true -> simplify_difference chk iexp fits f e = Some r ->
+  ev r <== ev (nth 0 (args_of e) ZERO) + a_of_int A (-1) * ev (nth 1 (args_of e) ZERO).
 Proof.
   intros Ck H. destruct (core_sound Ck f) as (_ & _ & Iprod & _ & _ & Isum & _). unfold simplify_difference in H.
   destruct (args_of e) as [|a [|b [|? ?]]]; try discriminate H. cbn [nth].
   match type of H with o_bind ?X _ = _ => destruct X as [negs|] eqn:En; [|discriminate H] end. cbn [o_bind] in H.
-  rewrite (Isum _ _ H). cbn [args_of]. change (evs (a :: negs)) with (ev a :: evs negs). rewrite nsum_cons. f_equal.
+  rewrite (Isum _ _ H). cbn [args_of]. change (evs (a :: negs)) with (ev a :: evs negs). rewrite nsum_cons. apply add_mono; [reflexivity|].
   destruct (is_add b) eqn:Eb.
-  - rewrite (neg_map_sound _ _ _ Ck En). f_equal. destruct b as [|o l]; [discriminate Eb|]. cbn [is_add] in Eb. apply Z.eqb_eq in Eb. subst o. reflexivity.
+  - rewrite (neg_map_sound _ _ _ Ck En). apply ref_of_eq. f_equal. destruct b as [|o l]; [discriminate Eb|]. cbn [is_add] in Eb. apply Z.eqb_eq in Eb. subst o. reflexivity.
   - destruct (s_prod f (Node MULTIPLICATION [NEG_ONE; b])) as [x|] eqn:Ep; [|discriminate En]. cbn [o_bind] in En. injection En as <-.
-    rewrite nsum_evs1, (Iprod _ _ Ep). cbn [args_of]. apply nprod_evs2.
+    rewrite nsum_evs1, (Iprod _ _ Ep). cbn [args_of]. apply ref_of_eq. apply nprod_evs2.
 Qed.
 
 Lemma ev_node_args o l l' : evs l' = evs l -> ev (Node o l') = ev (Node o l).
 Proof. intros H. cbn [ev]. fold (evs l') (evs l). rewrite H. reflexivity. Qed.
+Lemma nth_mono l' l k : Forall2 ref l' l -> nth k l' 0 <== nth k l 0.
+Proof. intros H. revert k. induction H as [|x y l' l Hxy _ IH]; intros [|k]; cbn; try reflexivity; [exact Hxy|apply IH]. Qed.
+Lemma ev_node_mono o l l' : Forall2 ref (evs l') (evs l) -> ev (Node o l') <== ev (Node o l).
+Proof.
+  intros H. cbn [ev]. fold (evs l') (evs l). destruct (o =? ADDITION); [apply nsum_mono; exact H|].
+  destruct (o =? MULTIPLICATION); [apply nprod_mono; exact H|].
+  destruct (is_arity_2 o); [apply op2_mono|apply op1_mono]; apply nth_mono; exact H.
+Qed.
 Lemma ev_unary o l : o <> ADDITION -> o <> MULTIPLICATION -> is_arity_2 o = false -> ev (Node o l) = sem_op1 A o (ev (nth 0 l ZERO)).
 Proof.
   intros N1 N2 A2. cbn [ev]. destruct (Z.eqb_spec o ADDITION); [contradiction|]. destruct (Z.eqb_spec o MULTIPLICATION); [contradiction|].
@@ -590,30 +679,30 @@ Proof.
   rewrite A2. fold (evs l). rewrite !nth_evs. reflexivity.
 Qed.
 
-Theorem simplify_node_sound f o l r : chk = true -> simplify_node chk f (Node o l) = Some r -> ev r = ev (Node o l).
+Theorem simplify_node_sound f o l r : chk = true -> simplify_node chk iexp fits f (Node o l) = Some r -> ev r <== ev (Node o l).
 Proof.
   intros Ck H. destruct (core_sound Ck f) as (Ipow & _ & Iprod & _ & _ & Isum & _). unfold simplify_node in H. cbn [opr] in H.
   destruct (Z.eqb_spec o POWER) as [->|N1].
-  { destruct l as [|b [|ex [|? ?]]]; try discriminate H. rewrite (Ipow _ _ _ H). symmetry. apply ev_pow. }
+  { destruct l as [|b [|ex [|? ?]]]; try discriminate H. rewrite (Ipow _ _ _ H). apply ref_of_eq. symmetry. apply ev_pow. }
   destruct (Z.eqb_spec o SAFE_POWER) as [->|N2].
   { cbn [args_of] in H. destruct l as [|b [|ex [|? ?]]]; try discriminate H. rewrite (Ipow _ _ _ H). reflexivity. }
   destruct (Z.eqb_spec o MULTIPLICATION) as [->|N3]; [rewrite (Iprod _ _ H); reflexivity|].
   destruct (Z.eqb_spec o ADDITION) as [->|N4]; [rewrite (Isum _ _ H); reflexivity|].
   destruct (Z.eqb_spec o DIVISION) as [->|N5].
-  { rewrite (quotient_sound _ _ _ Ck H). cbn [args_of]. rewrite ev_binary by (try reflexivity; discriminate). cbn [sem_op2]. symmetry. apply div_def. }
+  { rewrite (quotient_sound _ _ _ Ck H). cbn [args_of]. rewrite ev_binary by (try reflexivity; discriminate). cbn [sem_op2]. apply ref_of_eq. symmetry. apply div_def. }
   destruct (Z.eqb_spec o SUBTRACTION) as [->|N6].
-  { rewrite (difference_sound _ _ _ Ck H). cbn [args_of]. rewrite ev_binary by (try reflexivity; discriminate). cbn [sem_op2]. symmetry. apply sub_def. }
+  { rewrite (difference_sound _ _ _ Ck H). cbn [args_of]. rewrite ev_binary by (try reflexivity; discriminate). cbn [sem_op2]. apply ref_of_eq. symmetry. apply sub_def. }
   unfold arg0 in H. cbn [args_of] in H.
   destruct ((o =? SIN) || (o =? SINH)) eqn:E7.
-  { destruct (is_zero (nth 0 l ZERO)) eqn:Z0; injection H as <-; [|reflexivity].
+  { destruct (is_zero (nth 0 l ZERO)) eqn:Z0; injection H as <-; [|reflexivity]. apply ref_of_eq.
     apply orb_prop in E7 as [E|E]; apply Z.eqb_eq in E; subst o; rewrite ev_unary by (try reflexivity; discriminate); rewrite (is_zero_ev _ Z0); cbn;
       [symmetry; apply sin_0|symmetry; apply sinh_0]. }
   destruct ((o =? COS) || (o =? COSH) || (o =? EXPONENTIAL)) eqn:E8.
-  { destruct (is_zero (nth 0 l ZERO)) eqn:Z0; injection H as <-; [|reflexivity].
+  { destruct (is_zero (nth 0 l ZERO)) eqn:Z0; injection H as <-; [|reflexivity]. apply ref_of_eq.
     apply orb_prop in E8 as [E8|E]; [apply orb_prop in E8 as [E|E]|]; apply Z.eqb_eq in E; subst o; rewrite ev_unary by (try reflexivity; discriminate);
       rewrite (is_zero_ev _ Z0); cbn; symmetry; [apply cos_0|apply cosh_0|apply exp_0]. }
   destruct (Z.eqb_spec o LOGARITHM) as [->|N9].
-  { rewrite ev_unary by (try reflexivity; discriminate). cbn [sem_op1]. change (sem_op1 A LOGARITHM ?x) with (a_log A (a_abs A x)).
+  { apply ref_of_eq. rewrite ev_unary by (try reflexivity; discriminate). cbn [sem_op1]. change (sem_op1 A LOGARITHM ?x) with (a_log A (a_abs A x)).
     destruct (is_one (nth 0 l ZERO)) eqn:O1; [injection H as <-; rewrite (is_one_ev _ O1); symmetry; apply log_1|].
     destruct (nth 0 l ZERO) as [o' v'|o' l'] eqn:En; [injection H as <-; rewrite ev_unary by (try reflexivity; discriminate); rewrite En; reflexivity|].
     destruct (Z.eqb_spec o' EXPONENTIAL) as [->|N]; injection H as <-.
@@ -623,13 +712,14 @@ Proof.
   destruct ((o =? ABS) || (o =? SQRT)); [injection H as <-; reflexivity|discriminate H].
 Qed.
 
-Theorem automatic_simplify_sound : chk = true -> forall depth rf e r, automatic_simplify chk depth rf e = Some r -> ev r = ev e.
+Theorem automatic_simplify_sound : chk = true -> forall depth rf e r, automatic_simplify chk iexp fits depth rf e = Some r -> ev r <== ev e.
 Proof.
   intros Ck. induction depth as [|d IH]; intros rf e r H; [discriminate H|]. cbn [automatic_simplify] in H.
   destruct e as [o v|o l]; [injection H as <-; reflexivity|].
-  destruct (mapM (automatic_simplify chk d rf) l) as [l'|] eqn:Em; [|discriminate H]. cbn [o_bind] in H.
-  rewrite (simplify_node_sound _ _ _ _ Ck H). apply ev_node_args. clear H.
-  apply mapM_spec in Em. unfold evs. induction Em as [|x y l l' Hxy Em IHl]; [reflexivity|]. cbn [map]. rewrite IHl, (IH _ _ _ Hxy). reflexivity.
+  destruct (mapM (automatic_simplify chk iexp fits d rf) l) as [l'|] eqn:Em; [|discriminate H]. cbn [o_bind] in H.
+  rewrite (simplify_node_sound _ _ _ _ Ck H). apply ev_node_mono. clear H.
+  apply mapM_spec in Em. unfold evs. induction Em as [|x y l l' Hxy Em IHl]; [constructor|]. cbn [map].
+  constructor; [apply (IH _ _ _ Hxy)|exact IHl].
 Qed.
 End Core.
 
@@ -662,7 +752,7 @@ Proof. rewrite (mul_comm a (b + c)), <- distr, (mul_comm b a), (mul_comm c a). r
 Lemma insert_subtraction_sum l :
   nsum (evs l) = nsum (evs (filter (fun x => negb (oeqb (coefficient_of x) (Some NEG_ONE))) l)) + a_of_int A (-1) * nsum (evs (flat_map sub_list l)).
 Proof.
-  induction l as [|x l IH]; [cbn; rewrite mul_0_r; symmetry; apply add_0_r|].
+  induction l as [|x l IH]; [cbn; rewrite int_mul_0; symmetry; apply add_0_r|].
   cbn [filter]. change (flat_map sub_list (x :: l)) with (sub_list x ++ flat_map sub_list l).
   assert (Hs : nsum (evs (sub_list x ++ flat_map sub_list l)) = nsum (evs (sub_list x)) + nsum (evs (flat_map sub_list l)))
     by (unfold evs; rewrite map_app; apply nsum_app).
@@ -689,7 +779,7 @@ Proof.
   rewrite ev_add, <- El. rewrite (insert_subtraction_sum l'). cbn zeta in H. fold sub_list in H.
   set (subs := flat_map sub_list l') in *. set (adds := filter _ l') in *.
   destruct subs as [|s0 subs'] eqn:Es.
-  { injection H as <-. rewrite ev_add. cbn [evs map nsum fold_right]. rewrite mul_0_r. symmetry. apply add_0_r. }
+  { injection H as <-. rewrite ev_add. cbn [evs map nsum fold_right]. rewrite int_mul_0. symmetry. apply add_0_r. }
   destruct adds as [|a0 adds'] eqn:Ea.
   { injection H as <-. rewrite ev_mul. change (evs [NEG_ONE; Node ADDITION (s0 :: subs')]) with [a_of_int A (-1); ev (Node ADDITION (s0 :: subs'))].
     rewrite nprod_two, ev_add. change (nsum (evs [])) with (a_of_int A 0). symmetry. apply add_0_l. }
@@ -703,7 +793,7 @@ Lemma pow_repeat b : forall n, (0 < n)%nat -> pw b (a_of_int A (Z.of_nat n)) = n
 Proof.
   induction n as [|n IH]; intros H; [lia|]. destruct n as [|n].
   - cbn. rewrite mul_1_r. apply pow_1_r.
-  - rewrite Nat2Z.inj_succ, <- Z.add_1_r, int_add, <- pow_add, IH by lia. rewrite pow_1_r. cbn [repeat nprod fold_right]. apply mul_comm.
+  - rewrite Nat2Z.inj_succ, <- Z.add_1_r, <- pow_add_nn, IH by lia. rewrite pow_1_r. cbn [repeat nprod fold_right]. apply mul_comm.
 Qed.
 Theorem replace_integer_powers_sound : forall depth e r, replace_integer_powers depth e = Some r -> ev r = ev e.
 Proof.
@@ -714,8 +804,8 @@ Proof.
   { apply mapM_spec in Em. clear H. unfold evs. induction Em as [|x y l l' Hxy Em IHl]; [reflexivity|]. cbn [map]. rewrite IHl, (IH _ _ Hxy). reflexivity. }
   rewrite <- (ev_node_args o l l' El).
   destruct l' as [|b [|ex [|? ?]]]; try (injection H as <-; reflexivity).
-  destruct ((o =? POWER) && is_int ex && (0 <? leaf_val ex)) eqn:E; [|injection H as <-; reflexivity].
-  apply andb_prop in E as [E E3]. apply andb_prop in E as [E1 E2]. apply Z.eqb_eq in E1. apply Z.ltb_lt in E3. subst o. injection H as <-.
+  destruct ((o =? POWER) && is_int ex && (0 <? leaf_val ex) && (leaf_val ex <=? max_replaced_integer_power)) eqn:E; [|injection H as <-; reflexivity].
+  apply andb_prop in E as [E _]. apply andb_prop in E as [E E3]. apply andb_prop in E as [E1 E2]. apply Z.eqb_eq in E1. apply Z.ltb_lt in E3. subst o. injection H as <-.
   rewrite ev_mul, ev_pow, (is_int_ev _ E2). unfold evs. rewrite map_repeat'. rewrite <- (Z2Nat.id (leaf_val ex)) at 2 by lia.
   symmetry. apply pow_repeat. lia.
 Qed.
